@@ -135,15 +135,15 @@ theorem C07_avz_odd_last_sample_extrapolated (times : List ℝ) (E em had psi di
   rw [if_pos hodd]
   set L := 2 * (times.length / 2) with hL
   set placed := (if (Rfloor ((t0 - times.getD 0 0) / gridDt times) - ((L / 2 : ℕ) : ℤ)).natAbs > L then zerosL L
-      else List.take L (roll (avzCentred times.length (gridDt times)
-        (avzSpectrum (times.length / 2 + 1) (rfftfreq times.length (gridDt times)) E em had dist (Rabs psi) (thetaC n))
+      else List.take L (askRoll (avzCentred times.length (gridDt times)
+        (avzSpectrum (times.length / 2 + 1) (askRfftfreq times.length (gridDt times)) E em had dist (Rabs psi) (thetaC n))
           ++ zerosL L) (Rfloor ((t0 - times.getD 0 0) / gridDt times) - ((L / 2 : ℕ) : ℤ)))) with hp
   have hpl : placed.length = L := by
     rw [hp]
     split_ifs
     · exact zerosL_length _
-    · have := take_roll_length (avzCentred times.length (gridDt times)
-        (avzSpectrum (times.length / 2 + 1) (rfftfreq times.length (gridDt times)) E em had dist (Rabs psi) (thetaC n)))
+    · have := take_askRoll_length (avzCentred times.length (gridDt times)
+        (avzSpectrum (times.length / 2 + 1) (askRfftfreq times.length (gridDt times)) E em had dist (Rabs psi) (thetaC n)))
         (Rfloor ((t0 - times.getD 0 0) / gridDt times) - ((L / 2 : ℕ) : ℤ))
       rw [avzCentred_length] at this
       exact this
@@ -251,7 +251,7 @@ theorem C07_length_zhs (times : List ℝ) (E em had psi dist n t0 : ℝ) :
 
 /-- ZHS divides by `ν₀`, `1 + 0.4 r²`, `radians(2.4)`, `n`, `2N·dt`, `dt` and the viewing distance -/
 theorem C07_finite_zhs (N : ℕ) (dt n r : ℝ) (hN : 0 < N) (hdt : dt ≠ 0) (hn : 1 < n) :
-    (Askc.zhs_nu0 : ℝ) ≠ 0 ∧ 0 < 1 + (Askc.zhs_q : ℝ) * (r * r) ∧ radians (Askc.zhs_width_deg : ℝ) ≠ 0
+    (Askc.zhs_nu0 : ℝ) ≠ 0 ∧ 0 < 1 + (Askc.zhs_q : ℝ) * (r * r) ∧ askRadians (Askc.zhs_width_deg : ℝ) ≠ 0
       ∧ n ≠ 0 ∧ RofNat (2 * N) * dt ≠ 0 ∧ RofNat (2 * N) ≠ 0 := by
   have h2N : RofNat (2 * N) ≠ 0 := by
     simp only [RofNat]
@@ -263,12 +263,12 @@ theorem C07_finite_zhs (N : ℕ) (dt n r : ℝ) (hN : 0 < N) (hdt : dt ≠ 0) (h
 widths (the hadronic one only when a branch of `dThetaHad` is taken, i.e. `log10(E_had/1e3) ≥ 0`) -/
 theorem C07_finite_avz (N : ℕ) (dt n emE hadE : ℝ) (k : ℕ) (hN : 0 < N) (hdt : 0 < dt) (hn : 1 < n)
     (hk : 0 < k) (hem : 0 ≤ emE) :
-    0 < rfftfreq N dt k ∧ (Askc.avz_f0 : ℝ) ≠ 0
-      ∧ (∀ pw, 0 < 1 + Rpow (rfftfreq N dt k / Askc.avz_f0) pw)
+    0 < askRfftfreq N dt k ∧ (Askc.avz_f0 : ℝ) ≠ 0
+      ∧ (∀ pw, 0 < 1 + Rpow (askRfftfreq N dt k / Askc.avz_f0) pw)
       ∧ Rsin (thetaC n) ≠ 0
-      ∧ 0 < avzWidthEM emE (rfftfreq N dt k)
-      ∧ (¬(hadE ≤ 0 ∧ 0 ≤ hadE) → 0 ≤ log10 (hadE / Askc.avz_eps_ref) → 0 < avzWidthHad hadE (rfftfreq N dt k)) := by
-  have hf := rfftfreq_pos N dt k hN hdt hk
+      ∧ 0 < avzWidthEM emE (askRfftfreq N dt k)
+      ∧ (¬(hadE ≤ 0 ∧ 0 ≤ hadE) → 0 ≤ askLog10 (hadE / Askc.avz_eps_ref) → 0 < avzWidthHad hadE (askRfftfreq N dt k)) := by
+  have hf := askRfftfreq_pos N dt k hN hdt hk
   exact ⟨hf, avz_f0_pos.ne', fun pw => avz_denominator_pos _ pw hf, (sin_thetaC_pos n hn).ne',
     avzWidthEM_pos emE _ hem hf, fun h1 h2 => avzWidthHad_pos hadE _ h1 h2 hf⟩
 
